@@ -41,4 +41,7 @@ theorem enqueue_test_iff (a r pna u ka : Bool) :
 theorem updates_iterates_copy_eq : Gen.Cache.updates_iterates_copy = true := rfl
 theorem complete_iterates_copy_eq : Gen.Cache.complete_iterates_copy = true := rfl
 
+/-- D18 repair: `async_remove_listener` catches the `KeyError` of `set.remove` -/
+theorem remove_listener_catches_keyerror_eq : Gen.Cache.remove_listener_catches_keyerror = true := rfl
+
 end Zc
